@@ -17,8 +17,13 @@ PROP = "C07"
 DEFECTS = ["D15", "D16", "D17", "D18"]
 
 # ------------------------------------------------------------------------------------------ domain generator
-PREDS = {"p": ["a"], "q": ["b"], "r": ["a", "b"], "z": []}
-FUNCS = {"f": ["a"], "g": ["b"], "h": []}
+# A signature is a list of SLOTS: "a" (variable ?x, type a), "b" (?y, type b), "a2" (?x2, type a).  The binary e / k
+# take two arguments of ONE type, so initial facts / fluents and action calls REPEAT an object ((k a1 a1), (act0 a1 a1)):
+# the area in which the library keys arguments by object name (D07) and keeps `repeating_variables`.
+PREDS = {"p": ["a"], "q": ["b"], "r": ["a", "b"], "z": [], "e": ["a", "a2"]}
+FUNCS = {"f": ["a"], "g": ["b"], "h": [], "k": ["a", "a2"]}
+SLOT_TYPE = {"a": "a", "b": "b", "a2": "a"}
+SLOT_VAR = {"a": "?x", "b": "?y", "a2": "?x2"}
 OBJS = {"a": ["a1", "a2"], "b": ["b1", "b2"], "c": ["c1"]}      # c is a strict subtype of a
 SUBTYPES = {"a": ["a", "c"], "b": ["b"], "c": ["c"]}
 
@@ -28,8 +33,8 @@ def objs_of(ty):
     return [o for t in SUBTYPES[ty] for o in OBJS[t]]
 
 
-def _var(ty):
-    return "?x" if ty == "a" else "?y"
+def _var(slot):
+    return SLOT_VAR[slot]
 
 
 def _atom_text(name, args):
@@ -47,9 +52,9 @@ class GenAction:
 
     def __init__(self, rng, idx, typed):
         self.name = "act%d" % idx
-        kinds = rng.choice([["a"], ["a", "b"], ["b"], ["a", "b"]])
-        self.params = [(_var(t), t) for t in kinds]
-        ptypes = [t for _, t in self.params]
+        kinds = rng.choice([["a"], ["a", "b"], ["b"], ["a", "b"], ["a", "a2"], ["a", "a2", "b"]])
+        self.params = [(_var(t), SLOT_TYPE[t]) for t in kinds]
+        ptypes = kinds                     # the slots of the parameters
         avail_p = [n for n, sig in PREDS.items() if all(t in ptypes for t in sig)]
         avail_f = [n for n, sig in FUNCS.items() if all(t in ptypes for t in sig)] if typed else []
         self.typed = typed
@@ -176,7 +181,7 @@ class GenDomain:
 
     def text(self):
         def sig(tys):
-            return "".join(" %s%s" % (_var(t), " - " + t if self.typed else "") for t in tys)
+            return "".join(" %s%s" % (_var(t), " - " + SLOT_TYPE[t] if self.typed else "") for t in tys)
         out = ["(define (domain %s)" % self.name,
                "(:requirements :typing :fluents :conditional-effects :universal-preconditions)" if self.typed else "(:requirements :strips)"]
         if self.typed:
@@ -223,7 +228,7 @@ def gen_problem(rng, dom, name, order=None):
 def _tuples(sig):
     out = [[]]
     for t in sig:
-        out = [x + [o] for x in out for o in objs_of(t)]
+        out = [x + [o] for x in out for o in objs_of(SLOT_TYPE[t])]
     return out
 
 
@@ -236,6 +241,41 @@ def gen_agent_domain(rng, k, typed=True):
                 % (" ".join(tys), k, tys[0], k, tys[0], k, k))
     return ("(define (domain ma)\n(:requirements :strips)\n(:predicates (at%d ?x) (free ?t))\n"
             "(:action go%d :parameters (?x ?t) :precondition (and (at%d ?x)) :effect (and (not (at%d ?x)) (free ?t))))" % (k, k, k, k))
+
+
+def gen_indep(rng):
+    """An INDEPENDENT domain + problem + short plan, parsed and executed BEFORE the history starts; its values
+    (digests) and answers (serialisations, exports, applicability, repeated transitions) are re-checked after every
+    call of the history.  It deliberately uses the type / predicate / function NAMES of the generated domains with
+    another meaning (here c is a subtype of b, not of a; q is about a's; f is binary): state that leaks between
+    domains through anything keyed by name shows up as a changed answer."""
+    typed = rng.random() < 0.85
+    if not typed:
+        dom = ("(define (domain dz)\n(:requirements :strips)\n(:predicates (p ?x) (q ?x) (e ?x ?y))\n"
+               "(:action hop :parameters (?x ?y) :precondition (and (p ?x)) :effect (and (not (p ?x)) (p ?y) (e ?x ?y)))\n"
+               "(:action mark :parameters (?x) :precondition (and (p ?x)) :effect (and (q ?x))))")
+        prob = ("(define (problem pz) (:domain dz)\n(:objects a1 a2 c1)\n(:init (p a1) %s)\n(:goal (and (q a2))))"
+                % " ".join(rng.sample(["(q c1)", "(e a1 a1)", "(e c1 a2)", "(p c1)"], rng.randint(0, 3))))
+        calls = rng.choice([[("mark", ["a1"]), ("hop", ["a1", "a2"]), ("mark", ["a2"])],
+                            [("hop", ["a1", "a1"]), ("hop", ["a1", "c1"]), ("mark", ["c1"])]])
+    else:
+        dom = ("(define (domain dz)\n(:requirements :typing :fluents :conditional-effects)\n(:types a b - object c - b)\n"
+               "(:predicates (p ?y - b) (q ?x - a) (e ?x - a ?x2 - a))\n(:functions (f ?x - a ?x2 - a) (g ?y - b) (h))\n"
+               "(:action fill :parameters (?y - b)\n  :precondition (and (p ?y) (<= (g ?y) 8))\n"
+               "  :effect (and (increase (g ?y) 2) (increase (h) 1)))\n"
+               "(:action hop :parameters (?x - a ?x2 - a)\n  :precondition (and (q ?x))\n"
+               "  :effect (and (q ?x2) (e ?x ?x2) (increase (f ?x ?x2) 1) (when (e ?x2 ?x) (and (assign (h) 0)))))\n"
+               "(:action shut :parameters (?y - b)\n  :precondition (and (p ?y))\n"
+               "  :effect (and (not (p ?y)) (forall (?v - b) (when (p ?v) (and (decrease (g ?v) 1)))))))")
+        init = ["(p b1)", "(p c1)", "(q a1)", "(= (g b1) %d)" % rng.choice([0, 1, 4]), "(= (g c1) %d)" % rng.choice([0, 3]),
+                "(= (h) 0)", "(= (f a1 a2) %d)" % rng.choice([0, 2]), "(= (f a1 a1) %d)" % rng.choice([0, 5]), "(= (f a2 a1) 1)"]
+        rng.shuffle(init)
+        prob = ("(define (problem pz) (:domain dz)\n(:objects a1 a2 - a b1 - b c1 - c)\n(:init %s)\n(:goal (and (q a2) (>= (h) 1))))"
+                % " ".join(init))
+        calls = rng.choice([[("fill", ["c1"]), ("hop", ["a1", "a2"]), ("fill", ["b1"])],
+                            [("hop", ["a1", "a1"]), ("fill", ["c1"]), ("shut", ["b1"])],
+                            [("fill", ["b1"]), ("shut", ["c1"]), ("hop", ["a1", "a2"]), ("hop", ["a2", "a1"])]])
+    return {"dom": dom, "prob": prob, "calls": [{"act": a, "args": x} for a, x in calls]}
 
 
 # ------------------------------------------------------------------------------------------ history generator
@@ -318,7 +358,7 @@ def gen_history(rng, hid, tier, n_ops=None, style=None):
         elif k == "combine":
             ops.append({"k": k, "src": 0, "dummy": rng.random() < 0.3})
     return {"op": "c07.history", "id": hid, "doms": [d.text() for d in doms], "probs": [p[0] for p in probs],
-            "ma": ma, "ops": ops, "style": style,
+            "ma": ma, "ops": ops, "style": style, "indep": gen_indep(rng),
             "_shape": {"doms": doms, "probs": probs}}
 
 
@@ -432,7 +472,9 @@ def history_case(job, res, cfg):
             steps.append("{| so_op := %s; so_observed := %s; so_changed := %s; so_sharing := %s |}" % (
                 mop, cbool(last), clist(c_owner(n) for n in changed) if last else "[]",
                 clist("(%s, %s)" % (c_owner(a), c_owner(b)) for a, b, _ in sharing if not (a[0] == "O" and b[0] == "O")) if last else "[]"))
-    repeat_ok = not res["repeat_mismatch"] and not res["repeat_changed"] and not res["module_leak"]
+    # what the model has no cell for crosses as part of the repeat verdict: answers / values of the independent world,
+    # objects shared with it (the process-wide statics are part of the module root M, i.e. of so_changed)
+    repeat_ok = not res["repeat_mismatch"] and not res["repeat_changed"] and not res["module_leak"] and not res.get("indep")
     return "{| c_cfg := %s; c_steps := %s; c_repeat_ok := %s; c_thread := None |}" % (
         c_cfg(cfg), clist(steps), cbool(repeat_ok))
 
@@ -588,7 +630,7 @@ def dirty(res):
     """the oracle's verdict on one history result (independent of the model)"""
     if "steps" not in res:
         return True
-    if res["repeat_mismatch"] or res["repeat_changed"] or res["module_leak"]:
+    if res["repeat_mismatch"] or res["repeat_changed"] or res["module_leak"] or res.get("indep"):
         return True
     for st in res["steps"]:
         if st.get("changed"):
@@ -602,15 +644,33 @@ def dirty(res):
 def shrink(job, still_bad, budget=40):
     """delta-debugging on the op sequence: drop ops while the oracle still reports the violation"""
     ops = list(job["ops"])
+    last = None
+    if job.get("indep"):
+        # is the independent world needed to see the failure?  (it is when building it is itself the failing history)
+        budget -= 1
+        r = run_impl([dict(public(job), indep=None)], nproc=1)[0]
+        if still_bad(r):
+            job, last = dict(job, indep=None), r
     i = len(ops) - 1
     while i >= 0 and budget > 0:
         cand = ops[:i] + ops[i + 1:]
         budget -= 1
         r = run_impl([dict(public(job), ops=cand)], nproc=1)[0]
         if still_bad(r):
-            ops = cand
+            ops, last = cand, r
         i -= 1
-    return dict(job, ops=ops)
+    return dict(job, ops=ops), last
+
+
+def summary_of(res):
+    """what the oracle saw in one history result, for a replay file"""
+    if not isinstance(res, dict) or "steps" not in res:
+        return res
+    return {"changed": [[i, s["changed"], s.get("statics_changed", [])] for i, s in enumerate(res["steps"]) if s.get("changed")],
+            "value_sharing": sorted({(a, b) for s in res["steps"] for a, b, _ in s.get("sharing", []) if a[0] != "O" and b[0] != "O"}),
+            "repeat_mismatch": res["repeat_mismatch"], "repeat_changed": res["repeat_changed"], "module_leak": res["module_leak"],
+            "independent_world": res.get("indep", []),
+            "independent_world_build": res.get("statics_changed_while_building_independent_world", [])}
 
 
 # ------------------------------------------------------------------------------------------ shipped fixtures
@@ -695,7 +755,7 @@ def fixture_jobs(rng, tier, seed=0):
             ops += [{"k": "combine", "src": fi % len(ma), "dummy": fi % 2 == 1}, {"k": "new_domain"}, {"k": "export", "dom": 2}]
         ops += [{"k": "parse_domain", "src": 0}, {"k": "export", "dom": 0}, {"k": "export_traj", "plan": 0}]
         jobs.append({"op": "c07.history", "id": "fx%d" % fi, "doms": [dtext], "probs": [ptext], "ma": ma, "ma_nacts": ma_nacts,
-                     "ops": ops, "style": "fixture", "fixture": [df, pf, sf],
+                     "ops": ops, "style": "fixture", "fixture": [df, pf, sf], "indep": gen_indep(rng),
                      "_shape": {"doms": [dom], "probs": [(ptext, [], [])]}})
     return jobs
 
@@ -723,7 +783,7 @@ def witness_jobs():
             {"k": "mk_op", "dom": 0, "act": "act0", "ai": 0, "args": ["a1"], "objs": 0}]
     ag = [gen_agent_domain(random.Random(0), 0, True)]
     mk = lambda wid, ops: {"op": "c07.history", "id": wid, "doms": [dom], "probs": [prob], "ma": [ag], "ops": ops,
-                           "style": "witness", "witness": wid, "_shape": shape}
+                           "style": "witness", "witness": wid, "indep": gen_indep(random.Random(len(wid) + len(ops))), "_shape": shape}
     return [
         mk("D15", base + [{"k": "apply", "op": 0, "st": 0, "allow": False, "skip": False}, {"k": "str_action", "dom": 0, "act": "act0", "ai": 0}]),
         mk("D16", base + [{"k": "apply", "op": 0, "st": 0, "allow": False, "skip": False}, {"k": "apply", "op": 0, "st": 1, "allow": False, "skip": False}]),
@@ -749,7 +809,7 @@ def run(args):
         """the oracle's complaint is exactly the open finding D17: value sharing, and only in a history with a refused step"""
         open_ids = [d for d in DEFECTS if not cfg[d]]
         return (open_ids == ["D17"] and "steps" in r and not any(s.get("changed") for s in r["steps"])
-                and not r["repeat_mismatch"] and not r["repeat_changed"] and not r["module_leak"]
+                and not r["repeat_mismatch"] and not r["repeat_changed"] and not r["module_leak"] and not r.get("indep")
                 and any(s["op"]["k"] in ("triplet", "plan") and (s["res"].get("refused") is True or (isinstance(s["res"].get("refused"), list) and any(s["res"]["refused"])))
                         for s in r["steps"] if not s.get("skipped")))
 
@@ -828,7 +888,10 @@ def run(args):
                                 "observed": {"changed": [[i, s["changed"]] for i, s in enumerate(res["steps"]) if s.get("changed")],
                                              "value_sharing": sorted({(a, b) for s in res["steps"] for a, b, _ in s.get("sharing", []) if a[0] != "O" and b[0] != "O"}),
                                              "repeat_mismatch": res["repeat_mismatch"], "repeat_changed": res["repeat_changed"],
-                                             "module_leak": res["module_leak"]}},
+                                             "module_leak": res["module_leak"],
+                                             "process_statics_changed": res.get("statics_changed", []),
+                                             "independent_world": res.get("indep", []),
+                                             "independent_world_build": res.get("statics_changed_while_building_independent_world", [])}},
                       "nontrivial": len(executed) >= 3 and n_state_ops >= 1,
                       "witness_of": job.get("witness") if (job.get("witness") and not cfg.get(job.get("witness"), True)) else None,
                       "klass": "D17" if has_ref else None, "_job": job, "_res": res})
@@ -857,9 +920,11 @@ def run(args):
     for i, (c, ch) in enumerate(zip(cases, verdicts)):
         if ch in "oA" and "_job" in c and 3 < len(c["_job"]["ops"]) <= 14 and n_shrunk < 3:
             n_shrunk += 1
-            small = shrink(c["_job"], dirty, budget=20)
+            small, last = shrink(c["_job"], lambda r: oracle_bad(r) and not only_d17(r), budget=20)
             c["input"]["job"] = public(small)
             c["input"]["shrunk_from_ops"] = len(c["_job"]["ops"])
+            if last is not None:
+                c["input"]["observed_on_shrunk_history"] = summary_of(last)
     for c in cases:
         c.pop("_job", None)
         c.pop("_res", None)
